@@ -76,9 +76,38 @@ def gen_interrupted_completion(rng):
     return {"prog": "calltree", "ops": ops}
 
 
+def gen_refused_activation(rng):
+    """A probe with stages attached whose activation is refused (its first selector is fine, a later
+    one is not): it was never active, so nothing ever reaches its pipeline -- also when other probes
+    instrument the same functions afterwards."""
+    f = rng.choice(FNS)
+    v, w = rng.choice(local_vars(f)), rng.choice(local_vars(f))
+    one = lambda fn, var: {"levels": [{"fn": fn, "caps": [], "sibs": []}], "focus": {"var": var, "as": var}}
+    pc = rng.choice([0.6, 0.8])
+    call = lambda: {"op": "call", "fn": rng.choice([f, "S"]), "nargs": 1,
+                    "tape": tree_tape(rng, rng.randint(2, 16), {f}, pc, 0.0), "faults": {}}
+    g = rng.choice(FNS)
+    bad = one(g, "nosuchvar") if rng.random() < 0.6 else \
+        {"levels": [{"fn": g, "caps": [], "sibs": []}, {"fn": "NOTFN", "caps": [], "sibs": []}], "focus": {"var": "#value", "as": "nv"}}
+    ops = [{"op": "mk", "id": "bad", "inv": "C17.stream", "sels": [one(f, v), bad], "expect_refusal": True},
+           {"op": "mk", "id": "p1", "inv": "C17.stream", "sels": [one(f, w)]}]
+    for _ in range(rng.choice([1, 1, 2])):
+        ops.append({"op": "stage", "id": "bad", "kind": rng.choice(KINDS), "cap": v})
+    first = rng.random() < 0.4
+    if first:
+        ops += [{"op": "enter", "id": "p1"}, call()]
+    ops += [{"op": "enter", "id": "bad"}, call()]
+    if not first:
+        ops += [{"op": "enter", "id": "p1"}]
+    ops += [call(), call(), {"op": "exit", "id": "p1"}, call()]
+    return {"prog": "calltree", "ops": ops}
+
+
 def gen(rng, tier, quarantine=()):
     if "no-generators" not in quarantine and rng.random() < 0.1:
         return gen_generator_history(rng, tier)
+    if "no-refused-activation" not in quarantine and rng.random() < 0.08:
+        return gen_refused_activation(rng)
     if "no-interrupted-completion" not in quarantine and rng.random() < 0.08:
         return gen_interrupted_completion(rng)
     fns = rng.sample(FNS, rng.choice([1, 2]))
